@@ -320,6 +320,7 @@ def run_case(case):
                 if str(base) != base_str:
                     out["violations"].append({"kind": "base_tree_changed", "detail": req})
         base = original_base
+        out["evaluations"] = sum(len(pc) for _, _, pc in phases) + 1  # requests issued (+ the baseline)
         for bad in b.sweep_expressions()[:2]:
             out["violations"].append({"kind": "expression_required_columns_corrupted_by_requests", "detail": f"{label}: {bad}"})
         c["expression_objects_swept"] = len(b.expr_cache)
